@@ -66,6 +66,7 @@ pub(crate) fn run() -> (Result<(), Error>, Option<StdinLogReader>) {
 
     let result = || -> Result<(), Error> {
         let mut server;
+        let mut me_path: Option<PathBuf> = None;
         {
             let mut ptx = ProcessTransaction::new(&mut ps, TransactionBehavior::Immediate)?;
             // What an out-of-band run builds are dependencies of the target it
@@ -79,6 +80,7 @@ pub(crate) fn run() -> (Result<(), Error>, Option<StdinLogReader>) {
                 me.push(ptx.state().env().pwd());
                 me.push(ptx.state().env().target());
                 let f = redo::File::from_name(&mut ptx, &me, true)?;
+                me_path = Some(me);
                 log_debug2!(
                     "TARGET: {:?} {:?} {:?}\n",
                     ptx.state().env().startdir(),
@@ -106,6 +108,23 @@ pub(crate) fn run() -> (Result<(), Error>, Option<StdinLogReader>) {
             &targets,
             should_build,
         ));
+        if build_result.is_err() {
+            if let Some(me) = me_path.as_ref() {
+                // The script that called us may carry on (redo-ifchange x ||
+                // fallback), also when x was never started because something
+                // it needs failed.  What the script then produces reflects
+                // this failure: until it builds without one, it is to be
+                // rebuilt like a target that called redo-always.
+                let mut ptx = ProcessTransaction::new(&mut ps, TransactionBehavior::Immediate)?;
+                let mut f = redo::File::from_name(&mut ptx, me, true)?;
+                f.add_dep(&mut ptx, DepMode::Modified, redo::always_filename())?;
+                let mut always = redo::File::from_name(&mut ptx, redo::always_filename(), true)?;
+                always.set_stamp(redo::Stamp::MISSING);
+                always.set_changed(ptx.state().env());
+                always.save(&mut ptx)?;
+                ptx.commit()?;
+            }
+        }
         // TODO(someday): In the original, there's a state.rollback call.
         // Unclear what this is trying to do.
         assert!(ps.is_flushed());
